@@ -12,7 +12,11 @@ def ok(c, o):
 
 
 ODD = ["a\\", "echo ''", 'echo ""', "cat <<E\nE\n", "cat <<E\n\nE\n", "''", '""', "a=", "=a", "$", "${x}", "${#}", "${#x}", "$((", "\\\n", "a\\\nb", "$()", "``", "(( ))", "${x:-}", "~", "~a:~b",
-       "x=~/a:~b", "'\n'", "$@$*", "${@:-a}", "${*%a}", "${#@}", "${#*}", "a'b'\"c\"\\d", "$x$y", "<<-E\n\tE\n", ">f", "3>&-", "{ :; }", "f() { :; }", "for i do :; done", "case x in esac"]
+       "x=~/a:~b", "'\n'", "$@$*", "${@:-a}", "${*%a}", "${#@}", "${#*}", "a'b'\"c\"\\d", "$x$y", "<<-E\n\tE\n", ">f", "3>&-", "{ :; }", "f() { :; }", "for i do :; done", "case x in esac",
+       # positional parameters whose number does not fit an int, an int64, a uint64
+       "echo ${99999999999999999999}", "echo ${9223372036854775808}", "echo ${9223372036854775807}", "echo ${18446744073709551616}", "echo ${18446744073709551615}",
+       "echo ${#99999999999999999999} \"${9223372036854775808:-w}\" ${4294967296%x} $((${9223372036854775808}+1))", "echo ${00000000000000000000001} ${010} $010",
+       "cat <<E\n${9223372036854775808}\nE\n"]
 
 
 class P:
